@@ -35,7 +35,26 @@ Section C15.
   Theorem c15_acyclic : forall b, budget imports universe <= b -> ~ cyclic imports top ->
     exists l, load imports b top = LoadOk l.
   Proof. intros b. exact (C15_loader.c15_acyclic imports universe top b universe_ok). Qed.
+
+  (* the code that then runs (Model/Loader.v run_events: the packages' code concatenated in list order, nf p
+     files of top-level code and the init calls per package): no piece of code of an imported package q runs
+     after any piece of code of its importer p, and each reachable package's code runs exactly once *)
+  Theorem c15_events : forall b l nf, budget imports universe <= b -> load imports b top = LoadOk l ->
+    forall p q, In p l -> edge imports p q ->
+    forall pre post, run_events nf l = (pre ++ p :: post)%list -> ~ In q post.
+  Proof.
+    intros b l nf Hb Hl. exact (C15_loader.c15_events imports top l nf (C15_loader.c15_order imports universe top b l universe_ok Hb Hl)).
+  Qed.
+  Theorem c15_events_once : forall b l nf, budget imports universe <= b -> load imports b top = LoadOk l ->
+    forall p, reach imports top p -> count_occ string_dec (run_events nf l) p = S (nf p).
+  Proof.
+    intros b l nf Hb Hl p Hr.
+    pose proof (C15_loader.c15_order imports universe top b l universe_ok Hb Hl) as HV.
+    apply (C15_loader.c15_events_once imports top l nf HV). destruct HV as (_ & Hiff & _). apply Hiff; exact Hr.
+  Qed.
 End C15.
+Print Assumptions c15_events.
+Print Assumptions c15_events_once.
 Print Assumptions c15_terminates.
 Print Assumptions c15_order.
 Print Assumptions c15_cycle.
@@ -65,5 +84,6 @@ Example c15_witness :
             else if String.eqb p "a" then Some ["c"] else if String.eqb p "c" then Some [] else None in
   let g2 := fun p => if String.eqb p "main" then Some ["a"] else if String.eqb p "a" then Some ["b"]
             else if String.eqb p "b" then Some ["a"] else None in
-  load g1 20 "main" = LoadOk ["c"; "a"; "b"; "fmt"; "main"] /\ load g2 20 "main" = LoadCycle.
-Proof. vm_compute. split; reflexivity. Qed.
+  load g1 20 "main" = LoadOk ["c"; "a"; "b"; "fmt"; "main"] /\ load g2 20 "main" = LoadCycle /\
+  run_events (fun p => if String.eqb p "a" then 2 else 1) ["c"; "a"; "main"] = ["c"; "c"; "a"; "a"; "a"; "main"; "main"].
+Proof. vm_compute. repeat split; reflexivity. Qed.
